@@ -46,12 +46,13 @@ def main() -> int:
     ap.add_argument("prop")
     ap.add_argument("--checks")
     ap.add_argument("--skip-suite", action="store_true")
+    ap.add_argument("--as", dest="as_", help="suffix to store the change under (default: the variant letter)")
     args = ap.parse_args()
     wt = args.worktree.rstrip("/")
     src = Path(wt) / "seeded_demo" / args.variant
     patch = src / "patch.diff"
     demo = src / "demo.py"
-    sid = f"{args.prop}-{args.variant}"
+    sid = f"{args.prop}-{args.as_ or args.variant}"
     if not patch.exists() or not demo.exists():
         print(f"{sid}: deliverables missing in {src}")
         return 2
